@@ -34,6 +34,19 @@ func receiversOf(v ssa.Value, method string) []ssa.Value {
 	return out
 }
 
+// distinctValues: vs without repetitions, in order of first appearance.
+func distinctValues(vs []ssa.Value) []ssa.Value {
+	var out []ssa.Value
+	seen := map[ssa.Value]bool{}
+	for _, v := range vs {
+		if !seen[v] {
+			seen[v] = true
+			out = append(out, v)
+		}
+	}
+	return out
+}
+
 func checkC07(p *core.Program, r *core.Report) {
 	r.Rule("R1", "one category, three uses: in routeToCategory the value whose ExitUUID() is returned, whose Name() is saved and whose UUID() keys the localized name is one value, selected from recv.categories by UUID() == categoryUUID")
 	r.Rule("R2", "argument roles: match -> Result.Value, operand -> Result.Input, recv.resultName -> Result.Name, step.NodeUUID() -> node; in SwitchRouter.Route matchCase's results feed (match, category, extra), the operand text feeds operand, and the default branch is taken exactly on categoryUUID == \"\" && default != \"\" (match re-derived from the operand); RouteTimeout uses wait.Timeout().CategoryUUID()")
@@ -128,6 +141,8 @@ func checkC07(p *core.Program, r *core.Report) {
 	}
 	nameRecv := actuals(receiversOf(newResult.Call.Args[2], "Name"))
 	uuidRecv := actuals(receiversOf(getText.Call.Args[0], "UUID"))
+	// several returns (or several reads) of the same value are one use of it
+	exitRecv, nameRecv, uuidRecv = distinctValues(exitRecv), distinctValues(nameRecv), distinctValues(uuidRecv)
 	same := len(exitRecv) == 1 && len(nameRecv) == 1 && len(uuidRecv) == 1 && exitRecv[0] == nameRecv[0] && nameRecv[0] == uuidRecv[0]
 	r.Check(same, "R1", "routeToCategory/one-category-three-uses", p.Pos(newResult.Pos()), "exit, saved name and localization key come from the same category value",
 		fmt.Sprintf("the exit taken, the category name saved and the localized-name lookup do not use one and the same category (exit from %d, name from %d, key from %d values)", len(exitRecv), len(nameRecv), len(uuidRecv)))
@@ -217,23 +232,60 @@ func checkC07(p *core.Program, r *core.Report) {
 			}
 		}
 	}
-	fromOperandText := func(v ssa.Value) bool {
-		hasNative, hasToText := false, false
+	// the text may be taken where it is used or in a helper of the router's package whose result it is: the helper's
+	// returns are sliced in turn, its parameters standing for the arguments of the call
+	var operandText func(v ssa.Value, bound map[*ssa.Parameter]ssa.Value, depth int) (hasNative, hasToText bool)
+	operandText = func(v ssa.Value, bound map[*ssa.Parameter]ssa.Value, depth int) (hasNative, hasToText bool) {
+		resolve := func(a ssa.Value) ssa.Value {
+			if prm, ok := core.StripConv(a).(*ssa.Parameter); ok {
+				if b, ok := bound[prm]; ok {
+					return b
+				}
+			}
+			return a
+		}
 		for x := range core.BackSlice(v, func(c *ssa.Call) bool {
 			o := core.CalleeObj(&c.Call)
 			return o != nil && (o.Name() == "Native" || core.ObjName(o) == "excellent/types.ToXText")
 		}) {
-			if c, ok := x.(*ssa.Call); ok {
-				if o := core.CalleeObj(&c.Call); o != nil {
-					if o.Name() == "Native" {
-						hasNative = true
-					}
-					if core.ObjName(o) == "excellent/types.ToXText" && operandVal != nil && c.Call.Args[1] == operandVal {
+			c, ok := x.(*ssa.Call)
+			if !ok {
+				continue
+			}
+			if o := core.CalleeObj(&c.Call); o != nil {
+				if o.Name() == "Native" {
+					hasNative = true
+					continue
+				}
+				if core.ObjName(o) == "excellent/types.ToXText" {
+					if operandVal != nil && resolve(c.Call.Args[1]) == operandVal {
 						hasToText = true
 					}
+					continue
 				}
 			}
+			g := c.Call.StaticCallee()
+			if g == nil || len(g.Blocks) == 0 || depth >= 2 || core.FuncPkgPath(g) != core.FuncPkgPath(route) || g.Signature.Results().Len() != 1 {
+				continue
+			}
+			inner := map[*ssa.Parameter]ssa.Value{}
+			for i, fp := range g.Params {
+				if i < len(c.Call.Args) {
+					inner[fp] = resolve(c.Call.Args[i])
+				}
+			}
+			for _, ret := range core.Returns(g) {
+				if len(ret.Results) != 1 {
+					continue
+				}
+				n, t := operandText(ret.Results[0], inner, depth+1)
+				hasNative, hasToText = hasNative || n, hasToText || t
+			}
 		}
+		return hasNative, hasToText
+	}
+	fromOperandText := func(v ssa.Value) bool {
+		hasNative, hasToText := operandText(v, nil, 0)
 		return hasNative && hasToText
 	}
 	if matchPhi != nil && defBlock != nil {
